@@ -14,6 +14,7 @@ META = {
     'not_decided': ['round trip of every 64-bit word as an executed fact (we check the algebra of the constants and '
                     'the shapes of encoder/decoder, not 2^64 values)', "allocator alignment guarantees are std's contract"],
 }
+META['explanation'] += ' R15.10 the operator methods Object::eq / neq answer with PartialEq::eq / ne of the two operands (an ordering is no substitute).'
 
 OBJ = 'object::Object'
 TYPE = 'object::Type'
